@@ -147,6 +147,12 @@ def exactPost (t : DTables) (bps : List Nat) : Option (List (List Rat)) :=
   let (e0, rest) := t.emisQ
   let sites : List (Site Rat) := (true, e0) :: mkSites rest bps
   let p := t.paramsQ
+  if t.n ^ T ≤ 200 then
+    -- the definition theorem `posterior_is_path_marginal` is about
+    let tot := pathSum p e0 (mkSites rest bps)
+    if tot == 0 then none else
+    some ((List.range T).map (fun i => (List.range t.n).map (fun j => pathMarginal p e0 (mkSites rest bps) i j / tot)))
+  else
   let paths := allPaths t.n T
   let ws := paths.map (fun ys => (ys, pathW p 0 sites ys))
   let tot := ws.foldl (fun a x => a + x.2) (0 : Rat)
